@@ -425,7 +425,7 @@ numbers.Number.register(Sym)      # openfermion's COEFFICIENT_TYPES contain numb
 DEFAULT_MODULES = (
     "tangelo.linq.gate", "tangelo.linq.circuit",
     ("tangelo.toolboxes.operators.operators",
-     {"COEFFICIENT_TYPES": (int, builtins.float, builtins.complex, _np.integer, _np.floating, Sym)}),
+     {"COEFFICIENT_TYPES": (int, builtins.float, builtins.complex, _np.integer, _np.floating, _np.complexfloating, Sym)}),
 )
 
 _GLOBAL_PATCHES = []      # list of (install, uninstall) callables registered by stubs
